@@ -63,6 +63,9 @@ pub struct HalState {
     pub log: Vec<HalEv>,
     pub next_dma: u64,
     pub next_share: u64,
+    /// the n-th share() call (1-based) is mapped at device address 0, a perfectly legal IOVA
+    pub zero_share_at: Option<u64>,
+    pub share_calls: u64,
     pub alloc_calls: u64,
     /// 1-based index of the dma_alloc call that must fail.
     pub fail_alloc_at: Option<u64>,
@@ -95,6 +98,8 @@ impl HalState {
             log: Vec::new(),
             next_dma: DMA_BASE_DEFAULT,
             next_share: SHARE_BASE + 0x31,
+            zero_share_at: None,
+            share_calls: 0,
             alloc_calls: 0,
             fail_alloc_at: None,
             bounce: true,
@@ -383,9 +388,13 @@ fn share_impl(w: &mut World, buf: NonNull<[u8]>, dir: BufferDirection, ap: bool)
         w.fault("share", format!("share() of an empty buffer at {:#x}", vaddr));
     }
     let h = &mut w.hal;
-    let paddr = h.next_share;
+    h.share_calls += 1;
+    let at_zero = h.zero_share_at == Some(h.share_calls) && !h.live.contains_key(&0) && h.live.range(..len as u64 + 1).next().is_none();
+    let paddr = if at_zero { 0 } else { h.next_share };
     // never reuse, never aligned the same way twice
-    h.next_share += len as u64 + 1 + (len as u64 * 7 + h.regions.len() as u64 * 3) % 61;
+    if !at_zero {
+        h.next_share += len as u64 + 1 + (len as u64 * 7 + h.regions.len() as u64 * 3) % 61;
+    }
     let (host, bounce) = if h.bounce {
         let mut v = vec![0u8; len];
         unsafe { std::ptr::copy_nonoverlapping(vaddr as *const u8, v.as_mut_ptr(), len) };
